@@ -193,6 +193,7 @@ def judge_field(A, f, spec, res):
                                                           _trace['hi']))
     cb = np.frombuffer(np.asarray(CVAR).tobytes(), 'u1').reshape(f.shape)
     nexp = int(NEXP)
+    _state['last_nexp'] = nexp
     step = 2.0 ** (nexp - 7)
     try:
         back = A.unpack(np.asarray(CVAR)[None], np.array([VAR1], 'f4'),
@@ -239,6 +240,16 @@ def run_field(spec, res):
     f = make_field(spec)
     problems, ratio = judge_field(A, f, spec, res)
     facets = ['kind:' + spec['kind']]
+    # headroom: largest neighbour difference (PAKOUT order) relative to
+    # 2**NEXP; the byte range holds -127..+128 steps of 2**(NEXP-7)
+    headroom = None
+    if ratio is not None:
+        r = f.astype('f8')
+        rmax = max(np.abs(np.diff(r, axis=1)).max() if r.shape[1] > 1 else 0,
+                   np.abs(np.diff(np.append(r[0, 0], r[:, 0]))).max())
+        st = _state.get('last_nexp')
+        if st is not None and rmax > 0:
+            headroom = float(rmax / 2.0 ** st)
     if ratio is not None:
         facets.append('err<=%.1f' % (np.ceil(ratio * 10) / 10) if ratio < 1
                       else 'err>1')
@@ -253,7 +264,7 @@ def run_field(spec, res):
                      '; '.join(problems[:4])),
                  fkind=spec['kind'], problems=problems[:8],
                  eps=spec.get('eps'), pattern=spec.get('pattern'),
-                 ratio=ratio)
+                 ratio=ratio, headroom=headroom)
 
 
 def run_file(spec, res):
